@@ -11,7 +11,9 @@ between two attempts of a blocked `_lock_updates`, during commit / rollback, nev
 of a lock-step, every mode / timeout / retry count / set-iteration order (`cfg`), every body (any length, any
 number of backends and keys, single- and multi-key writes, TTL changes (`expire`), counters and conditional writes
 (`incr` with a ttl, `set(exist=…)` — read-modify-writes whose own backend read comes after the lock was taken and can
-fail), ending normally or by raising) and every starting world outside a transaction (in particular: any set of lock
+fail), nested blocks to any depth on any context object — the very object of an
+enclosing block included —, ending normally or by raising), every context object `o` of the outermost block (one of its
+own, or a shared one that is idle) and every starting world outside a transaction (in particular: any set of lock
 keys held by foreign owners, any store content with any deadlines).
 Property theorems only; helper lemmas live in `Lemmas/TxFault*.lean`, the model in `Model/TxFault.lean`.
 -/
@@ -23,24 +25,24 @@ def NoMine (w : FWorld) : Prop := ∀ key e, alLookup w.locks key = some e → e
 
 /-- **The task is out of the transaction once the block has been left** — whatever failed in the body, in
 commit, in rollback or while unlocking. -/
-theorem ctx_reset_after_exit (cfg : Cfg) (body : List BodyCmd) (w : FWorld) (h : w.ctx = none) :
-    (runBlock cfg body w).2.ctx = none := by
-  rw [runBlock_world cfg body w h]
-  generalize (runBody cfg body (entered w)).2 = w2
-  generalize (!(runBody cfg body (entered w)).1.isOk) = exc
-  unfold aexit
+theorem ctx_reset_after_exit (cfg : Cfg) (o : Option Nat) (body : List BodyCmd) (w : FWorld) (h : w.ctx = none) (hidle : ObjIdle w o) :
+    (runBlockOn cfg o body w).2.ctx = none := by
+  rw [runBlockOn_world cfg o body w h hidle]
+  generalize (runBody cfg body (enteredOn o w)).2 = w2
+  generalize (!(runBody cfg body (enteredOn o w)).1.isOk) = exc
+  unfold aexitOn
   split
   · assumption
   · rw [tryFinally_snd]
-    rfl
+    cases o <;> rfl
 
 /-- **A write issued right after the block reaches the store** (it is not buffered in a dead overlay): unless
 that very command is made to fail, a live read of the backend returns the value. -/
-theorem write_after_block_reaches_store (cfg cfg' : Cfg) (body : List BodyCmd) (w : FWorld) (h : w.ctx = none)
-    (b k : Nat) (v : Int) (hf : cfg'.fails (runBlock cfg body w).2.counter = false) :
-    dataView (facadeSet cfg' b k v (runBlock cfg body w).2).2 b k = some v := by
-  have hc := ctx_reset_after_exit cfg body w h
-  generalize (runBlock cfg body w).2 = w' at hc hf
+theorem write_after_block_reaches_store (cfg cfg' : Cfg) (o : Option Nat) (body : List BodyCmd) (w : FWorld) (h : w.ctx = none) (hidle : ObjIdle w o)
+    (b k : Nat) (v : Int) (hf : cfg'.fails (runBlockOn cfg o body w).2.counter = false) :
+    dataView (facadeSet cfg' b k v (runBlockOn cfg o body w).2).2 b k = some v := by
+  have hc := ctx_reset_after_exit cfg o body w h hidle
+  generalize (runBlockOn cfg o body w).2 = w' at hc hf
   unfold facadeSet
   simp only [hc]
   rw [backendCmd_ok cfg' b _ w' hf]
@@ -66,21 +68,22 @@ def RollbackLeftEarly (cfg : Cfg) (w w' : FWorld) (b lk : Nat) : Prop :=
 after the block has a logged `unlock` of its own that was made to fail, or — only possible with the OLD loop — the unlock
 of another entry ended with a BaseException and `_rollback` was left.  The headline theorem
 `locks_released_or_self_failed` below is the instance for the loop of /repo. -/
-theorem locks_released_or_rollback_left_early (cfg : Cfg) (body : List BodyCmd) (w : FWorld)
-    (h : w.ctx = none) (hm : NoMine w) :
-    ∀ b lk e, alLookup (runBlock cfg body w).2.locks (b, lk) = some e → e.mine = true →
-      (OwnUnlockFailed cfg w (runBlock cfg body w).2 b lk ∨ RollbackLeftEarly cfg w (runBlock cfg body w).2 b lk) ∧
-      LapsesWithin cfg (runBlock cfg body w).2 e := by
+theorem locks_released_or_rollback_left_early (cfg : Cfg) (o : Option Nat) (body : List BodyCmd) (w : FWorld)
+    (h : w.ctx = none) (hidle : ObjIdle w o) (hm : NoMine w) :
+    ∀ b lk e, alLookup (runBlockOn cfg o body w).2.locks (b, lk) = some e → e.mine = true →
+      (OwnUnlockFailed cfg w (runBlockOn cfg o body w).2 b lk ∨ RollbackLeftEarly cfg w (runBlockOn cfg o body w).2 b lk) ∧
+      LapsesWithin cfg (runBlockOn cfg o body w).2 e := by
   intro b lk e he hmine
   unfold OwnUnlockFailed RollbackLeftEarly LapsesWithin
-  rw [runBlock_world cfg body w h] at he ⊢
+  rw [runBlockOn_world cfg o body w h hidle] at he ⊢
   -- the invariant holds when the body starts, hence when it ends (normally or not)
-  have hI0 : LockInv cfg.timeout (entered w) :=
-    ⟨⟨[]⟩, rfl, fun b lk e he hme => by have := hm _ _ he; rw [hme] at this; cases this⟩
-  have hI := runBody_RI cfg body (entered w) hI0
-  have hcnt : w.counter ≤ (runBody cfg body (entered w)).2.counter := (runBody_RBody cfg body (entered w)).1
-  generalize (runBody cfg body (entered w)).2 = w2 at hI hcnt he ⊢
-  generalize (!(runBody cfg body (entered w)).1.isOk) = exc at he ⊢
+  have hI0 : LockInv cfg.timeout (enteredOn o w) :=
+    ⟨⟨[]⟩, enteredOn_ctx o w h, fun b lk e he hme => by
+      rw [enteredOn_locks] at he; have := hm _ _ he; rw [hme] at this; cases this⟩
+  have hI := runBody_RI cfg body (enteredOn o w) hI0
+  have hcnt : w.counter ≤ (runBody cfg body (enteredOn o w)).2.counter := (runBody_outer cfg o body w h).2.2.1
+  generalize (runBody cfg body (enteredOn o w)).2 = w2 at hI hcnt he ⊢
+  generalize (!(runBody cfg body (enteredOn o w)).1.isOk) = exc at he ⊢
   obtain ⟨tx, hctx, hinv⟩ := hI
   have hcov : Covered cfg w.counter tx.backs w2 := fun b lk e he hme => Or.inl (hinv b lk e he hme).1
   -- `__aexit__`: commit or rollback over all wrapped backends, then `close()` (which touches the context only)
@@ -102,17 +105,19 @@ theorem locks_released_or_rollback_left_early (cfg : Cfg) (body : List BodyCmd) 
         · exact Or.inr ⟨hall, i, b', lk', h1, h2, h3, h4, heq, h5⟩
     · obtain ⟨d, hd1, hd2⟩ := (hinv b lk e (hr.2.2.2 _ _ he3) hmine).2
       exact ⟨d, hd1, by rw [hr.2.2.1]; exact hd2⟩
-  unfold aexit at he ⊢
+  unfold aexitOn at he ⊢
   simp only [hctx] at he ⊢
   rw [tryFinally_snd] at he ⊢
   cases exc with
   | true =>
     simp only [if_true] at he ⊢
     rw [txRollback_snd] at he ⊢
-    exact key _ (rollbackList_RExit cfg tx.backs w2) (rollbackList_cov cfg w.counter tx.backs w2 hcnt hcov) he
+    exact key _ (RExit.pre.trans (rollbackList_RExit cfg tx.backs w2) (closeOn_RExit o _))
+      ((rollbackList_cov cfg w.counter tx.backs w2 hcnt hcov).mono (closeOn_RExit o _)) he
   | false =>
     simp only [Bool.false_eq_true, if_false] at he ⊢
-    exact key _ (commitLoop_RExit cfg tx.backs w2) (commitLoop_cov cfg w.counter tx.backs w2 hcnt hcov) he
+    exact key _ (RExit.pre.trans (commitLoop_RExit cfg tx.backs w2) (closeOn_RExit o _))
+      ((commitLoop_cov cfg w.counter tx.backs w2 hcnt hcov).mono (closeOn_RExit o _)) he
 
 /-- **Every lock the transaction took is released, or the failing command is that very unlock** — then the entry lapses
 by itself at most `timeout` after the block was left.  FULL statement, for the code of /repo (`_rollback` rolls every
@@ -120,12 +125,12 @@ backend back whatever fails, `cfg.rbAll = true`, the model's default), for EVERY
 kinds (Exception / BaseException such as `asyncio.CancelledError`): any entry still carrying this transaction's token
 after the block has a logged `unlock` command of its own key, on its own backend, issued during this block, that the
 oracle made fail; and its deadline is within the timeout. -/
-theorem locks_released_or_self_failed (cfg : Cfg) (hall : cfg.rbAll = true) (body : List BodyCmd) (w : FWorld)
-    (h : w.ctx = none) (hm : NoMine w) :
-    ∀ b lk e, alLookup (runBlock cfg body w).2.locks (b, lk) = some e → e.mine = true →
-      OwnUnlockFailed cfg w (runBlock cfg body w).2 b lk ∧ LapsesWithin cfg (runBlock cfg body w).2 e := by
+theorem locks_released_or_self_failed (cfg : Cfg) (hall : cfg.rbAll = true) (o : Option Nat) (body : List BodyCmd) (w : FWorld)
+    (h : w.ctx = none) (hidle : ObjIdle w o) (hm : NoMine w) :
+    ∀ b lk e, alLookup (runBlockOn cfg o body w).2.locks (b, lk) = some e → e.mine = true →
+      OwnUnlockFailed cfg w (runBlockOn cfg o body w).2 b lk ∧ LapsesWithin cfg (runBlockOn cfg o body w).2 e := by
   intro b lk e he hmine
-  obtain ⟨h1 | ⟨h3, _⟩, h2⟩ := locks_released_or_rollback_left_early cfg body w h hm b lk e he hmine
+  obtain ⟨h1 | ⟨h3, _⟩, h2⟩ := locks_released_or_rollback_left_early cfg o body w h hidle hm b lk e he hmine
   · exact ⟨h1, h2⟩
   · rw [hall] at h3
     cases h3
@@ -135,13 +140,13 @@ BaseException kind anywhere else — in the body, while a lock is being acquired
 the commit of ANY backend (the first of several in particular: `Transaction.commit` catches BaseException and rolls
 the remaining backends back) — and failing unlocks of Exception kind leave no lock behind except one whose own
 unlock failed.  (All-`Exception` oracles, `cfg.base = fun _ => false`, are the special case proved before kinds existed.) -/
-theorem locks_released_when_unlock_faults_are_exceptions (cfg : Cfg) (body : List BodyCmd) (w : FWorld)
-    (h : w.ctx = none) (hm : NoMine w)
-    (hu : ∀ i b' lk', w.counter ≤ i → (⟨i, b', .unlock lk', true⟩ : Ev) ∈ (runBlock cfg body w).2.log → cfg.base i = false) :
-    ∀ b lk e, alLookup (runBlock cfg body w).2.locks (b, lk) = some e → e.mine = true →
-      OwnUnlockFailed cfg w (runBlock cfg body w).2 b lk ∧ LapsesWithin cfg (runBlock cfg body w).2 e := by
+theorem locks_released_when_unlock_faults_are_exceptions (cfg : Cfg) (o : Option Nat) (body : List BodyCmd) (w : FWorld)
+    (h : w.ctx = none) (hidle : ObjIdle w o) (hm : NoMine w)
+    (hu : ∀ i b' lk', w.counter ≤ i → (⟨i, b', .unlock lk', true⟩ : Ev) ∈ (runBlockOn cfg o body w).2.log → cfg.base i = false) :
+    ∀ b lk e, alLookup (runBlockOn cfg o body w).2.locks (b, lk) = some e → e.mine = true →
+      OwnUnlockFailed cfg w (runBlockOn cfg o body w).2 b lk ∧ LapsesWithin cfg (runBlockOn cfg o body w).2 e := by
   intro b lk e he hmine
-  obtain ⟨h1 | ⟨_, i, b', lk', hi1, _, _, hi4, _, hi6⟩, h2⟩ := locks_released_or_rollback_left_early cfg body w h hm b lk e he hmine
+  obtain ⟨h1 | ⟨_, i, b', lk', hi1, _, _, hi4, _, hi6⟩, h2⟩ := locks_released_or_rollback_left_early cfg o body w h hidle hm b lk e he hmine
   · exact ⟨h1, h2⟩
   · rw [hu i b' lk' hi1 hi6] at hi4
     cases hi4
@@ -151,11 +156,11 @@ of this transaction is still waiting for a lock (acquisition is sequential: a bl
 its lock or raised before the next command starts), so when other holders release their locks LATER (any list of
 release events after the block) still every entry carrying this transaction's token is one whose own `unlock`,
 issued during the block, was made to fail. -/
-theorem locks_released_or_self_failed_after_release (cfg : Cfg) (hall : cfg.rbAll = true) (body : List BodyCmd) (w : FWorld)
-    (h : w.ctx = none) (hm : NoMine w) (later : List (Nat × Nat)) :
-    ∀ b lk e, alLookup (envRel later (runBlock cfg body w).2.locks) (b, lk) = some e → e.mine = true →
-      OwnUnlockFailed cfg w (runBlock cfg body w).2 b lk ∧ LapsesWithin cfg (runBlock cfg body w).2 e :=
-  fun b lk e he hmine => locks_released_or_self_failed cfg hall body w h hm b lk e (envRel_sub _ _ _ _ he) hmine
+theorem locks_released_or_self_failed_after_release (cfg : Cfg) (hall : cfg.rbAll = true) (o : Option Nat) (body : List BodyCmd) (w : FWorld)
+    (h : w.ctx = none) (hidle : ObjIdle w o) (hm : NoMine w) (later : List (Nat × Nat)) :
+    ∀ b lk e, alLookup (envRel later (runBlockOn cfg o body w).2.locks) (b, lk) = some e → e.mine = true →
+      OwnUnlockFailed cfg w (runBlockOn cfg o body w).2 b lk ∧ LapsesWithin cfg (runBlockOn cfg o body w).2 e :=
+  fun b lk e he hmine => locks_released_or_self_failed cfg hall o body w h hidle hm b lk e (envRel_sub _ _ _ _ he) hmine
 
 /-- the environment never releases this transaction's own locks (it cannot be blamed for a missing entry, and
 the theorems above are not vacuous because "somebody else cleaned up") -/
@@ -165,16 +170,16 @@ theorem env_keeps_own_locks (later : List (Nat × Nat)) (w : FWorld) (key : Nat 
 
 /-- corollary: if no `unlock` command of this block was made to fail (with an exception of either kind), nothing of
 the transaction's locks is left -/
-theorem no_lock_left_without_unlock_fault (cfg : Cfg) (body : List BodyCmd) (w : FWorld)
-    (h : w.ctx = none) (hm : NoMine w)
-    (hu : ∀ ev ∈ (runBlock cfg body w).2.log, w.counter ≤ ev.idx → (∃ lk, ev.cmd = .unlock lk) → ev.failed = false) :
-    NoMine (runBlock cfg body w).2 := by
+theorem no_lock_left_without_unlock_fault (cfg : Cfg) (o : Option Nat) (body : List BodyCmd) (w : FWorld)
+    (h : w.ctx = none) (hidle : ObjIdle w o) (hm : NoMine w)
+    (hu : ∀ ev ∈ (runBlockOn cfg o body w).2.log, w.counter ≤ ev.idx → (∃ lk, ev.cmd = .unlock lk) → ev.failed = false) :
+    NoMine (runBlockOn cfg o body w).2 := by
   intro key e he
   cases hme : e.mine with
   | false => rfl
   | true =>
     obtain ⟨⟨i, h1, _, _, h4⟩ | ⟨_, i, _, _, h1, _, _, _, _, h4⟩, _⟩ :=
-      locks_released_or_rollback_left_early cfg body w h hm key.1 key.2 e he hme
+      locks_released_or_rollback_left_early cfg o body w h hidle hm key.1 key.2 e he hme
     · have := hu _ h4 h1 ⟨_, rfl⟩
       cases this
     · have := hu _ h4 h1 ⟨_, rfl⟩
@@ -183,24 +188,24 @@ theorem no_lock_left_without_unlock_fault (cfg : Cfg) (body : List BodyCmd) (w :
 /-- a body that raised — a failing command, `LockedError`, or its own exception — **applies none of the
 transaction's writes**: the data of every backend is exactly what it was before the block (whatever else fails
 during the rollback). -/
-theorem failed_body_applies_nothing (cfg : Cfg) (body : List BodyCmd) (w : FWorld) (h : w.ctx = none)
-    (hb : (runBody cfg body (entered w)).1.isOk = false) :
-    (runBlock cfg body w).2.data = w.data := by
-  rw [runBlock_world cfg body w h, hb]
-  exact ((aexit_exc_RBody cfg _).2.1).trans (runBody_RBody cfg body (entered w)).2.1
+theorem failed_body_applies_nothing (cfg : Cfg) (o : Option Nat) (body : List BodyCmd) (w : FWorld) (h : w.ctx = none) (hidle : ObjIdle w o)
+    (hb : (runBody cfg body (enteredOn o w)).1.isOk = false) :
+    (runBlockOn cfg o body w).2.data = w.data := by
+  rw [runBlockOn_world cfg o body w h hidle, hb]
+  exact ((aexitOn_exc_RBody cfg o _).2.1).trans (runBody_outer cfg o body w h).2.2.2.1
 
 /-- **A failure inside the body applies none of the transaction's writes**: if any backend command issued by
 the body is made to fail (index between the block's first command and the body's last), the data of every
 backend after the block is what it was before — for every fault oracle, whatever else fails afterwards. -/
-theorem body_fault_applies_nothing (cfg : Cfg) (body : List BodyCmd) (w : FWorld) (h : w.ctx = none)
-    (hf : ∃ i, w.counter ≤ i ∧ i < (runBody cfg body (entered w)).2.counter ∧ cfg.fails i = true) :
-    (runBlock cfg body w).2.data = w.data := by
-  apply failed_body_applies_nothing cfg body w h
-  cases hok : (runBody cfg body (entered w)).1.isOk with
+theorem body_fault_applies_nothing (cfg : Cfg) (o : Option Nat) (body : List BodyCmd) (w : FWorld) (h : w.ctx = none) (hidle : ObjIdle w o)
+    (hf : ∃ i, w.counter ≤ i ∧ i < (runBody cfg body (enteredOn o w)).2.counter ∧ cfg.fails i = true) :
+    (runBlockOn cfg o body w).2.data = w.data := by
+  apply failed_body_applies_nothing cfg o body w h hidle
+  cases hok : (runBody cfg body (enteredOn o w)).1.isOk with
   | false => rfl
   | true =>
     obtain ⟨i, h1, h2, h3⟩ := hf
-    have := (runBody_Clean cfg body (entered w)).2 hok i h1 h2
+    have := (runBody_Clean cfg body (enteredOn o w)).2 hok i (by rw [show (enteredOn o w).counter = w.counter from enterOn_counter o w]; exact h1) h2
     rw [h3] at this
     cases this
 
@@ -222,10 +227,10 @@ theorem readOrLock_of_noData (c : BCmd) (h : c.noData) : ReadOrLock c := by
 not), `incr`, `delete`, `set_many`, `delete_many`, `expire` — and whatever fails, the only commands that reach a backend
 before `__aexit__` are reads (`get`, `exists`) and `set_lock`s.  In particular `expire` of a key the transaction has not
 written reads the value and buffers it with the new TTL; it does not send `expire` to the store (seeded change C16-8). -/
-theorem body_sends_no_write (cfg : Cfg) (body : List BodyCmd) (w : FWorld) :
-    ∀ ev, ev ∈ (runBody cfg body (entered w)).2.log → ev ∈ w.log ∨ ReadOrLock ev.cmd := by
-  intro ev h
-  rcases (runBody_RBody cfg body (entered w)).2.2 ev h with h' | h'
+theorem body_sends_no_write (cfg : Cfg) (o : Option Nat) (body : List BodyCmd) (w : FWorld) (h : w.ctx = none) :
+    ∀ ev, ev ∈ (runBody cfg body (enteredOn o w)).2.log → ev ∈ w.log ∨ ReadOrLock ev.cmd := by
+  intro ev hev
+  rcases (runBody_outer cfg o body w h).2.2.2.2 ev hev with h' | h'
   · exact Or.inl h'
   · exact Or.inr (readOrLock_of_noData _ h')
 
@@ -233,13 +238,13 @@ theorem body_sends_no_write (cfg : Cfg) (body : List BodyCmd) (w : FWorld) :
 command it logged is a read, a `set_lock` or an `unlock`.  This is "a failure inside the body applies none of the
 transaction's writes" at the level of the command trace; unlike `failed_body_applies_nothing` it does not depend on the
 reading "a failing command has no effect on the backend". -/
-theorem failed_body_sends_no_write (cfg : Cfg) (body : List BodyCmd) (w : FWorld) (h : w.ctx = none)
-    (hb : (runBody cfg body (entered w)).1.isOk = false) :
-    ∀ ev, ev ∈ (runBlock cfg body w).2.log → ev ∈ w.log ∨ ReadOrLock ev.cmd := by
+theorem failed_body_sends_no_write (cfg : Cfg) (o : Option Nat) (body : List BodyCmd) (w : FWorld) (h : w.ctx = none) (hidle : ObjIdle w o)
+    (hb : (runBody cfg body (enteredOn o w)).1.isOk = false) :
+    ∀ ev, ev ∈ (runBlockOn cfg o body w).2.log → ev ∈ w.log ∨ ReadOrLock ev.cmd := by
   intro ev hev
-  rw [runBlock_world cfg body w h, hb] at hev
-  rcases (aexit_exc_RBody cfg _).2.2 ev hev with h1 | h1
-  · rcases (runBody_RBody cfg body (entered w)).2.2 ev h1 with h2 | h2
+  rw [runBlockOn_world cfg o body w h hidle, hb] at hev
+  rcases (aexitOn_exc_RBody cfg o _).2.2 ev hev with h1 | h1
+  · rcases (runBody_outer cfg o body w h).2.2.2.2 ev h1 with h2 | h2
     · exact Or.inl h2
     · exact Or.inr (readOrLock_of_noData _ h2)
   · exact Or.inr (readOrLock_of_noData _ h1)
@@ -248,44 +253,85 @@ theorem failed_body_sends_no_write (cfg : Cfg) (body : List BodyCmd) (w : FWorld
 — the same value and the same deadline (a TTL changed by `expire`, by a `set`/`incr` with a ttl or by a conditional `set`
 inside the failed body is not applied either) — so at every later instant `t` the store shows what it would have shown
 had the block never run. -/
-theorem failed_body_keeps_values_and_deadlines (cfg : Cfg) (body : List BodyCmd) (w : FWorld) (h : w.ctx = none)
-    (hb : (runBody cfg body (entered w)).1.isOk = false) (b k : Nat) :
-    alLookup (runBlock cfg body w).2.data (b, k) = alLookup w.data (b, k) ∧
-    ∀ t, entryView { (runBlock cfg body w).2 with now := t } b k = entryView { w with now := t } b k := by
-  have hd := failed_body_applies_nothing cfg body w h hb
+theorem failed_body_keeps_values_and_deadlines (cfg : Cfg) (o : Option Nat) (body : List BodyCmd) (w : FWorld) (h : w.ctx = none) (hidle : ObjIdle w o)
+    (hb : (runBody cfg body (enteredOn o w)).1.isOk = false) (b k : Nat) :
+    alLookup (runBlockOn cfg o body w).2.data (b, k) = alLookup w.data (b, k) ∧
+    ∀ t, entryView { (runBlockOn cfg o body w).2 with now := t } b k = entryView { w with now := t } b k := by
+  have hd := failed_body_applies_nothing cfg o body w h hidle hb
   refine ⟨by rw [hd], fun t => ?_⟩
   unfold entryView
   simp only [hd]
 
 /-- the same for a body in which a backend command was made to fail (the premise of `body_fault_applies_nothing`) -/
-theorem body_fault_keeps_values_and_deadlines (cfg : Cfg) (body : List BodyCmd) (w : FWorld) (h : w.ctx = none)
-    (hf : ∃ i, w.counter ≤ i ∧ i < (runBody cfg body (entered w)).2.counter ∧ cfg.fails i = true) (b k : Nat) :
-    alLookup (runBlock cfg body w).2.data (b, k) = alLookup w.data (b, k) ∧
-    ∀ t, entryView { (runBlock cfg body w).2 with now := t } b k = entryView { w with now := t } b k := by
-  apply failed_body_keeps_values_and_deadlines cfg body w h
-  cases hok : (runBody cfg body (entered w)).1.isOk with
+theorem body_fault_keeps_values_and_deadlines (cfg : Cfg) (o : Option Nat) (body : List BodyCmd) (w : FWorld) (h : w.ctx = none) (hidle : ObjIdle w o)
+    (hf : ∃ i, w.counter ≤ i ∧ i < (runBody cfg body (enteredOn o w)).2.counter ∧ cfg.fails i = true) (b k : Nat) :
+    alLookup (runBlockOn cfg o body w).2.data (b, k) = alLookup w.data (b, k) ∧
+    ∀ t, entryView { (runBlockOn cfg o body w).2 with now := t } b k = entryView { w with now := t } b k := by
+  apply failed_body_keeps_values_and_deadlines cfg o body w h hidle
+  cases hok : (runBody cfg body (enteredOn o w)).1.isOk with
   | false => rfl
   | true =>
     obtain ⟨i, h1, h2, h3⟩ := hf
-    have := (runBody_Clean cfg body (entered w)).2 hok i h1 h2
+    have := (runBody_Clean cfg body (enteredOn o w)).2 hok i (by rw [show (enteredOn o w).counter = w.counter from enterOn_counter o w]; exact h1) h2
     rw [h3] at this
     cases this
+
+/-- **A nested block leaves the transaction open** — on whichever context object it is opened: an object of its own (an
+inline `async with cache.transaction(…)`, a call of a decorated function), another shared object, or THE VERY OBJECT of an
+enclosing block (`tx = cache.transaction(); async with tx: …; async with tx: …`).  Run inside a transaction (from any world
+in which the context variable is set), with any body, any faults, leaving normally or not: the task is still inside the
+transaction afterwards (nothing was committed, rolled back or closed), every context object has the fields it had
+(`_inner` was bumped and taken back), the data of every backend is untouched and only reads / lock commands were sent.
+(Seeded change C16-10: an `__aexit__` that recognised "inner" by `self._tx is not self.current_tx` committed and closed
+here when the object was that of the outermost block.) -/
+theorem nested_block_leaves_transaction_open (cfg : Cfg) (o : Option Nat) (inner : List BodyCmd) (w : FWorld)
+    (hs : w.ctx.isSome = true) :
+    (bodyStep cfg (.block o inner) w).2.ctx.isSome = true ∧
+    (∀ i, objOf (bodyStep cfg (.block o inner) w).2 i = objOf w i) ∧
+    (bodyStep cfg (.block o inner) w).2.data = w.data ∧
+    ∀ ev, ev ∈ (bodyStep cfg (.block o inner) w).2.log → ev ∈ w.log ∨ ReadOrLock ev.cmd := by
+  obtain ⟨a, b, _, c, d⟩ := bodyStep_RIn cfg (.block o inner) w hs
+  refine ⟨a, b, c, fun ev hev => ?_⟩
+  rcases d ev hev with h' | h'
+  · exact Or.inl h'
+  · exact Or.inr (readOrLock_of_noData _ h')
+
+/-- … so **the body of the outermost block ends inside the transaction it started, however it nests**: the context variable
+is still set when `__aexit__` of the outermost block runs, and the block object is as `__aenter__` left it (`_inner` = 0,
+`_tx` set) — which is why that `__aexit__` commits / rolls back EVERYTHING the body did (`exitOn_outer`), a failure after an
+inner block included. -/
+theorem body_ends_inside_its_transaction (cfg : Cfg) (o : Option Nat) (body : List BodyCmd) (w : FWorld) (h : w.ctx = none) :
+    (runBody cfg body (enteredOn o w)).2.ctx.isSome = true ∧
+    ∀ i, objOf (runBody cfg body (enteredOn o w)).2 i = objOf (enteredOn o w) i :=
+  ⟨(runBody_outer cfg o body w h).1, (runBody_outer cfg o body w h).2.1⟩
+
+/-- **The block object can be used again** (`async with tx: …` … later `async with tx: …`, sequentially): once the outermost
+block of object `o` has been left — whatever failed — the task is outside any transaction, `o` is as constructed (`_tx` =
+None, `_inner` = 0) and every other context object has the fields it had; so the premises `w.ctx = none`, `ObjIdle w o` of
+every theorem of this file hold again for the next block on `o` or on any other object that was idle. -/
+theorem block_object_idle_after_exit (cfg : Cfg) (o : Option Nat) (body : List BodyCmd) (w : FWorld) (h : w.ctx = none)
+    (hidle : ObjIdle w o) :
+    (runBlockOn cfg o body w).2.ctx = none ∧ ObjIdle (runBlockOn cfg o body w).2 o ∧
+    ∀ i, objOf (runBlockOn cfg o body w).2 i = if o = some i then { objOf w i with tx := false } else objOf w i := by
+  refine ⟨ctx_reset_after_exit cfg o body w h hidle, fun i hi => ?_, runBlockOn_objs cfg o body w h hidle⟩
+  rw [runBlockOn_objs cfg o body w h hidle i, if_pos hi]
+  exact hidle i hi
 
 /-- **A failure is never silent**: if the block returns normally, no backend command issued by it — in the body,
 in commit, or while unlocking — was made to fail.  (Contrapositive: any fault reaches the caller as an exception;
 the errors `Transaction.commit` swallows while rolling back the remaining backends only occur under an exception
 that is re-raised.) -/
-theorem fault_never_silent (cfg : Cfg) (body : List BodyCmd) (w : FWorld) (h : w.ctx = none)
-    (hok : (runBlock cfg body w).1.isOk = true) :
-    ∀ i, w.counter ≤ i → i < (runBlock cfg body w).2.counter → cfg.fails i = false := by
-  unfold runBlock at hok ⊢
-  simp only [h] at hok ⊢
-  have hb := runBody_Clean cfg body (entered w)
-  generalize runBody cfg body (entered w) = p at hb hok ⊢
+theorem fault_never_silent (cfg : Cfg) (o : Option Nat) (body : List BodyCmd) (w : FWorld) (h : w.ctx = none) (hidle : ObjIdle w o)
+    (hok : (runBlockOn cfg o body w).1.isOk = true) :
+    ∀ i, w.counter ≤ i → i < (runBlockOn cfg o body w).2.counter → cfg.fails i = false := by
+  rw [runBlockOn_res cfg o body w h hidle] at hok ⊢
+  have hb := runBody_Clean cfg body (enteredOn o w)
+  rw [show (enteredOn o w).counter = w.counter from enterOn_counter o w] at hb
+  generalize runBody cfg body (enteredOn o w) = p at hb hok ⊢
   obtain ⟨r, w2⟩ := p
   cases r with
   | ok a =>
-    have he := aexit_Clean cfg false w2
+    have he := aexitOn_Clean cfg o false w2
     simp only at hb hok he ⊢
     intro i hi1 hi2
     by_cases hlt : i < w2.counter
@@ -293,7 +339,7 @@ theorem fault_never_silent (cfg : Cfg) (body : List BodyCmd) (w : FWorld) (h : w
     · exact he.2 hok i (by omega) hi2
   | err e =>
     simp only at hok
-    generalize aexit cfg true w2 = q at hok
+    generalize aexitOn cfg o true w2 = q at hok
     obtain ⟨r', w3⟩ := q
     cases r' <;> simp [Res.isOk] at hok
 
@@ -479,6 +525,45 @@ example :
     (runBlock (demoCfg []) [.expire 0 1 4, .adv 8] ttlWorld).2.data = [((0, 2), ⟨7, none⟩)] ∧
     (let r := runBlock (demoCfg []) [.expire 0 1 4, .adv 8, .raise] ttlWorld
      r.2.data = ttlWorld.data ∧ entryView r.2 0 1 = some ⟨5, some 40⟩ ∧ entryView { r.2 with now := 40 } 0 1 = none) := by
+  decide +kernel
+
+/-! #### nested blocks on shared context objects (`tx = cache.transaction(); async with tx: …; async with tx: …`) -/
+
+/-- the outermost block is on shared object 0 and the body enters the SAME object again (and, inside that, an object of its
+own), writes in every block and goes on after the inner blocks: one transaction — 3 `set_lock`s, the commit, 3 `unlock`s
+when the OUTERMOST block is left; the object is idle again afterwards -/
+example :
+    let body : List BodyCmd := [.set 0 0 1 none, .block (some 0) [.set 0 1 2 none, .block none [.get 0 1]], .set 0 2 3 none]
+    let r := runBlockOn (demoCfg []) (some 0) body demoWorld
+    (match r.1 with | .ok _ => true | _ => false) = true ∧ r.2.ctx = none ∧ r.2.locks = [] ∧ r.2.counter = 7 ∧
+    r.2.outs = [.bool true, .bool true, .val (some 2), .bool true] ∧ objOf r.2 0 = ⟨false, 0⟩ ∧
+    r.2.log.map (·.cmd) = [.setLock 1 16, .setLock 2 16, .setLock 3 16, .setMany [(0, 1), (1, 2), (2, 3)] none,
+      .unlock 1, .unlock 2, .unlock 3] := by decide +kernel
+
+/-- the witness of the class of seeded change C16-10: a backend command of the OUTER body fails AFTER the inner block of the
+same object was left (command 2, the `set_lock` of the third write): premises of `body_fault_applies_nothing` for the object
+form; everything is rolled back — both locks released, nothing applied, no write sent, the task out of the transaction -/
+example :
+    let body : List BodyCmd := [.set 0 0 1 none, .block (some 0) [.set 0 1 2 none], .set 0 2 3 none]
+    demoWorld.ctx = none ∧ ObjIdle demoWorld (some 0) ∧
+    (∃ i, demoWorld.counter ≤ i ∧ i < (runBody (demoCfg [2]) body (enteredOn (some 0) demoWorld)).2.counter ∧
+      (demoCfg [2]).fails i = true) ∧
+    (let r := runBlockOn (demoCfg [2]) (some 0) body demoWorld
+     (match r.1 with | .err (.fault 2 .exception) => true | _ => false) = true ∧ r.2.data = demoWorld.data ∧
+     r.2.locks = [] ∧ r.2.ctx = none ∧ objOf r.2 0 = ⟨false, 0⟩ ∧
+     r.2.log.map (·.cmd) = [.setLock 1 16, .setLock 2 16, .setLock 3 16, .unlock 1, .unlock 2]) :=
+  ⟨rfl, fun i h => by cases h; rfl, ⟨2, by decide +kernel⟩, by decide +kernel⟩
+
+/-- the same object open three times, the body raising inside the innermost block: both inner `__aexit__`s only take their
+`_inner` back, the outermost one rolls back; and a shared object first entered INSIDE another object's transaction (the
+decorator form builds an object of its own) is an inner block like any other -/
+example :
+    let body : List BodyCmd := [.block (some 0) [.set 0 0 1 none, .block (some 0) [.incr 0 1 none, .raise]], .delete 0 2]
+    (let r := runBlockOn (demoCfg []) (some 0) body demoWorld
+     (match r.1 with | .err .body => true | _ => false) = true ∧ r.2.data = demoWorld.data ∧ r.2.locks = [] ∧
+     r.2.ctx = none ∧ objOf r.2 0 = ⟨false, 0⟩ ∧ r.2.counter = 5) ∧
+    (let r := runBlock (demoCfg []) body demoWorld
+     (match r.1 with | .err .body => true | _ => false) = true ∧ r.2.locks = [] ∧ r.2.ctx = none ∧ objOf r.2 0 = ⟨false, 0⟩) := by
   decide +kernel
 
 /-! #### failures of BaseException kind (`asyncio.CancelledError`: a command cut short by a time limit) -/
